@@ -205,6 +205,11 @@ func genDial(seed uint64, tier string) KScenario {
 	sc.AltALPN = r.P(0.25)
 	sc.VN = !sc.Early && r.P(0.12)
 	sc.CfgTokens = r.P(0.2)
+	if r.P(0.15) {
+		// one of the first Initial datagrams vanishes: with a ClientHello that spans several of them the retransmission of
+		// the lost piece falls into the time when the rest of the handshake is already under way
+		sc.Net.DropInitials = r.Pick(1, 1, 2)
+	}
 	if d := sc.Cfg.Derive; d != nil && r.P(0.15) {
 		// the spec advertises no max_idle_timeout; the Config's own (short) value must not be enforced in its place
 		d.Suppress = append(d.Suppress, 0x01)
